@@ -1,8 +1,8 @@
 (* C05 - Password-protected screens let in exactly the clients that prove the password.
    Only property theorems here, each closed by [exact] of a lemma proved in Auth/*.v.
    The model (Auth/AuthModel.v) is parametrised by [cfg].  The baseline is
-     cfgF single ext = the code with the committed fixes 39c3ee3 (global handler list) and fa69878
-     (weak DES keys), for BOTH variants of rfbUnregisterSecurityHandler (single = false: /repo HEAD,
+     cfgF single ext tight = the code with the committed fixes 39c3ee3 (global handler list), fa69878
+     (weak DES keys) and 93b245e (UDP input gated), for BOTH variants of rfbUnregisterSecurityHandler (single = false: /repo HEAD,
      recursion on ->next; single = true: notes/fix_C05_3.diff) and ARBITRARY security types [ext] of
      the four application handler objects (the TightVNC type 16 included);
    cfg_legacy (the code before the fixes) only serves as regression witness (the *_refuted theorems). *)
@@ -209,9 +209,9 @@ Theorem C05_tight_negotiation :
   map c_st (p_conns (run tight_cfg proc_init (tight_trace [0;0;0;2]%N []))) = [StClosed].
 Proof. exact tight_negotiation. Qed.
 
-(* ---- UDP input channel (screen->udpPort): with notes/fix_C05_4.diff (which cfgF has) no input event
-   reaches the application of a screen that requires a password, on any trace; the code as of /repo
-   HEAD (cfgU) hands a datagram of a peer that proved nothing to kbdAddEvent *)
+(* ---- UDP input channel (screen->udpPort): since 93b245e (= notes/fix_C05_4.diff, part of the baseline cfgF) no input
+   event reaches the application of a screen that requires a password, on any trace (property theorem);
+   the code before it (cfgU, regression witness) hands a datagram of a peer that proved nothing to kbdAddEvent *)
 Theorem C05_udp_input_gated : forall single ext tight ops s scr,
   let p := run (cfgF single ext tight) proc_init ops in
   In s (p_input p) -> nth_error (p_screens p) s = Some scr -> has_password scr = false.
